@@ -217,48 +217,55 @@ func c03Run(c *Ctx, m *feedModel, nontrivial bool, desc string) {
 
 func protoRow(t *table) []string { return append([]string{}, t.Rows[0]...) }
 
-func c03Stops(maxRows int) Harness {
+// c03StopsModel builds the stops product: n rows, each (stop_id, parent_station) over the
+// collision alphabets.
+func c03StopsModel(c *Ctx, maxRows int) (m *feedModel, n int, desc string) {
 	ids := []string{"", "S1", "S2", "S3"}
 	parents := []string{"", "S1", "S2", "S3", "SX", "S1 "}
+	m = genStaticFeedN(c, false, baseCounts, nil, nil)
+	t := m.t("stops.txt")
+	p := protoRow(t)
+	t.Rows = nil
+	n = c.Free("stops.rows", maxRows+1)
+	var d []string
+	cyc, dup, blank := false, false, false
+	seen := map[string]bool{}
+	for r := 0; r < n; r++ {
+		id := ids[c.Free(fmt.Sprintf("stops[%d].stop_id", r), len(ids))]
+		par := parents[c.Free(fmt.Sprintf("stops[%d].parent_station", r), len(parents))]
+		row := append([]string{}, p...)
+		t.Rows = append(t.Rows, row)
+		t.set(r, "stop_id", id)
+		t.set(r, "parent_station", par)
+		t.set(r, "location_type", "")
+		d = append(d, fmt.Sprintf("(%q<-%q)", id, par))
+		if id != "" && id == par {
+			cyc = true
+		}
+		if id != "" && seen[id] {
+			dup = true
+		}
+		if id == "" {
+			blank = true
+		}
+		seen[id] = true
+	}
+	if cyc {
+		c.Witness("self_parent")
+	}
+	if dup {
+		c.Witness("duplicate_stop_ids")
+	}
+	if blank {
+		c.Witness("blank_stop_id")
+	}
+	return m, n, "stops " + strings.Join(d, " ")
+}
+
+func c03Stops(maxRows int) Harness {
 	return func(c *Ctx) {
-		m := genStaticFeedN(c, false, baseCounts, nil, nil)
-		t := m.t("stops.txt")
-		p := protoRow(t)
-		t.Rows = nil
-		n := c.Free("stops.rows", maxRows+1)
-		var desc []string
-		cyc, dup, blank := false, false, false
-		seen := map[string]bool{}
-		for r := 0; r < n; r++ {
-			id := ids[c.Free(fmt.Sprintf("stops[%d].stop_id", r), len(ids))]
-			par := parents[c.Free(fmt.Sprintf("stops[%d].parent_station", r), len(parents))]
-			row := append([]string{}, p...)
-			t.Rows = append(t.Rows, row)
-			t.set(r, "stop_id", id)
-			t.set(r, "parent_station", par)
-			t.set(r, "location_type", "")
-			desc = append(desc, fmt.Sprintf("(%q<-%q)", id, par))
-			if id != "" && id == par {
-				cyc = true
-			}
-			if id != "" && seen[id] {
-				dup = true
-			}
-			if id == "" {
-				blank = true
-			}
-			seen[id] = true
-		}
-		if cyc {
-			c.Witness("self_parent")
-		}
-		if dup {
-			c.Witness("duplicate_stop_ids")
-		}
-		if blank {
-			c.Witness("blank_stop_id")
-		}
-		c03Run(c, m, n >= 2, "stops "+strings.Join(desc, " "))
+		m, n, desc := c03StopsModel(c, maxRows)
+		c03Run(c, m, n >= 2, desc)
 	}
 }
 
